@@ -1,4 +1,4 @@
-//@props C06 C07
+//@props C06 C07 C12
 //@rewrite `.get()` => `.shim_nz_get()` :: NonZeroU32::get has no postcondition in vstd; stand-in that names the value (spec/lib/prelude.rs)
 //@strip-attrs derive :: derive output is outside Verus
 //@derive-keep Clone|Copy
@@ -45,12 +45,12 @@ pub enum MatrixVectorTypes {
 }
 //@end
 
-//@fn wgsl.rs::rust_scalar_type props=C06
+//@fn wgsl.rs::rust_scalar_type props=C06,C12
 pub fn rust_scalar_type(scalar: &naga::Scalar) -> «(r:» TokenStream«)
     requires
         scalar_toks(scalar.kind, scalar.width) is Some, // [C06.scalar-pre] a scalar kind/width inside the documented feature set
     ensures
-        ts_view(&r) == scalar_toks(scalar.kind, scalar.width)->0, // [C06.scalar] same scalar kind and width»
+        ts_view(&r) == scalar_toks(scalar.kind, scalar.width)->0, // [C06.scalar] [C12.field-type] same scalar kind and width (override fields get their type from here)»
 {
     // TODO: Support other widths?
     match (scalar.kind, scalar.width) {
@@ -69,12 +69,12 @@ pub fn rust_scalar_type(scalar: &naga::Scalar) -> «(r:» TokenStream«)
 }
 //@end
 
-//@fn wgsl.rs::rust_type props=C06
+//@fn wgsl.rs::rust_type props=C06,C12
 pub fn rust_type(module: &naga::Module, ty: &naga::Type, format: MatrixVectorTypes) -> «(r:» TokenStream«)
     requires
         ty_supported(module, ty), // [C06.type-pre] a type of the module inside the documented feature set: every todo!()/panic! arm below is unreachable
     ensures
-        ts_view(&r) == rty_toks(module, ty, format), // [C06.type] scalar table; vectors and matrices per representation; atomics -> scalar; fixed arrays keep their length (recursively); structs -> the emitted struct of the same name
+        ts_view(&r) == rty_toks(module, ty, format), // [C06.type] [C12.field-type] scalar table; vectors and matrices per representation; atomics -> scalar; fixed arrays keep their length (recursively); structs -> the emitted struct of the same name
     decreases ty_idx(module, ty),»
 {
     «broadcast use axiom_uarena_index_req;
